@@ -62,23 +62,17 @@ def run(chk, repo):
                 f"{len(reads)} read_chunk sites and {len(direct)} direct reads in __getitem__", key="getitem:read-sites")
     if reads:
         rc = reads[0]
-        depth = loop_depth(rc, gi.node)
+        from ..dataflow import enclosing_iterations
+        its = enclosing_iterations(rc, gi.node)
+        depth = len(its)
         star = [k for k in rc.keywords if k.arg is None]
         chk.require(depth == 1, "C11-I2", where, "read_chunk is called at loop depth 1 (once per task)",
                     f"read_chunk is called at loop depth {depth}: one request per row instead of one per chunk", key="getitem:read-depth")
         # the loop iterates over tasks; tasks 1:1 with groupby keys
-        loop = None
-        for p in parents(rc):
-            if isinstance(p, (ast.For, ast.comprehension)):
-                loop = p
-                break
-            if isinstance(p, (ast.ListComp, ast.GeneratorExp)):
-                loop = p.generators[0]
-                break
-        if loop is None:
+        if not its or its[0][0] is None:
             chk.fail("C11-I2", where, "read_chunk is not inside a loop over tasks", key="getitem:read-loop")
         else:
-            ok, why = one_to_one_with_groupby(repo, gi, loop.iter)
+            ok, why = one_to_one_with_groupby(repo, gi, its[0][0])
             chk.require(ok, "C11-I2", where, f"the loop iterates over tasks that are 1:1 with the groupby-by-chunk keys ({why})",
                         f"the tasks are not 1:1 with the touched chunks: {why}", key="getitem:tasks-1to1", sample={"chain": why})
     # I3
